@@ -56,6 +56,9 @@ def alt_vocab(pair):
     return [(n, sub(a)) if n == "containing_modules" else (n, a) for n, a in ARCH_VOCAB]
 
 
+ALL_SHARDS_UNDER_PROFILES = ("optimized",)  # every call sequence again under python -O (no assert statements)
+
+
 def plan(tier, seed):
     la, lr = (5, 6) if tier == "quick" else (6, 7)
     specs = [{"kind": "arch", "len": la, "first": i} for i in range(len(ARCH_VOCAB))]
